@@ -346,6 +346,31 @@ class Interp:
         self.max_steps = max_steps
         self.max_depth = max_depth
 
+    BUILTIN_EXC = {"Exception": None, "BaseException": None, "ValueError": "Exception", "TypeError": "Exception", "IndexError": "LookupError", "KeyError": "LookupError",
+                   "LookupError": "Exception", "AttributeError": "Exception", "NotImplementedError": "RuntimeError", "RuntimeError": "Exception",
+                   "ArithmeticError": "Exception", "ZeroDivisionError": "ArithmeticError", "AssertionError": "Exception", "LinAlgError": "ValueError"}
+
+    def exc_ancestors(self, name: str) -> set[str]:
+        out, todo = set(), [name]
+        while todo:
+            n = todo.pop()
+            if n in out or n is None:
+                continue
+            out.add(n)
+            c = self.prog.find_cls(n)
+            if c is not None:
+                todo += [self.prog.classes[b].name for b in c.bases if b in self.prog.classes] + [b.split(".")[-1] for b in c.external_bases]
+            elif n in self.BUILTIN_EXC:
+                todo.append(self.BUILTIN_EXC[n])
+        return out
+
+    def handler_matches(self, h: ast.ExceptHandler, raised: str, env, fn, depth) -> bool:
+        if h.type is None:
+            return True
+        types = h.type.elts if isinstance(h.type, ast.Tuple) else [h.type]
+        names = {t.id if isinstance(t, ast.Name) else getattr(t, "attr", "") for t in types}
+        return bool(names & self.exc_ancestors(raised))
+
     # ------------------------------------------------------------------ classes of the analysed package
     def is_dataclass(self, c) -> bool:
         for d in c.node.decorator_list:
@@ -577,6 +602,26 @@ class Interp:
             raise _Continue()
         elif isinstance(st, ast.Break):
             raise _Break()
+        elif isinstance(st, ast.Try):
+            try:
+                try:
+                    self.block(st.body, env, fn, depth)
+                except Raised as r:
+                    for h in st.handlers:
+                        if self.handler_matches(h, r.name, env, fn, depth):
+                            if h.name:
+                                env[h.name] = Obj(__cls__=self.prog.find_cls(r.name))
+                            self.block(h.body, env, fn, depth)
+                            break
+                    else:
+                        raise
+                else:
+                    self.block(st.orelse, env, fn, depth)
+            finally:
+                if st.finalbody:
+                    self.block(st.finalbody, env, fn, depth)
+        elif isinstance(st, ast.With):
+            raise Unsupported("with statement")
         elif isinstance(st, ast.Delete):
             for t in st.targets:
                 if isinstance(t, ast.Subscript):
@@ -822,6 +867,19 @@ class Interp:
                 raise Unsupported(f"attribute {e.attr} of an abstract array")
             from geolint.model import ClassInfo as _CI2
 
+            if isinstance(obj, tuple) and len(obj) == 3 and obj[0] == "super":
+                _tag, recv, here = obj
+                start = recv if isinstance(recv, _CI2) else (recv.__dict__.get("__cls__") if isinstance(recv, Obj) else None)
+                if start is None:
+                    raise Unsupported("super() on an unknown receiver")
+                m = self.prog.lookup_after(start, here, e.attr)
+                if m is None:
+                    if e.attr in ("__init__", "_validate_tensor", "__init_subclass__"):
+                        return lambda *a, **k: None  # object.__init__
+                    raise Unsupported(f"super().{e.attr} not found")
+                if m.is_property:
+                    return self.call(m, [recv], depth=depth + 1)
+                return ("boundmethod", m, recv)
             if isinstance(obj, _CI2) and e.attr == "__new__":
                 return lambda c, *a, **k: Obj(__cls__=c)
             if isinstance(obj, _CI2):
@@ -858,6 +916,8 @@ class Interp:
                     return ("boundmethod", m, cls)
                 if m is not None:
                     return ("boundmethod", m, obj)
+                if cls is not None and self.prog.class_attr(cls, e.attr) is not None:
+                    return self.class_attr(cls, e.attr, fn, depth)
                 raise Unsupported(f"attribute {e.attr} of the receiver")
             if isinstance(obj, (list, tuple, dict, set)) and e.attr in ("pop", "insert", "remove", "append", "index", "count", "extend", "copy", "get", "add", "update",
                                                                         "items", "keys", "values", "setdefault"):
@@ -911,6 +971,16 @@ class Interp:
 
             rec_d(0, dict(env))
             return out_d
+        if isinstance(e, ast.Call) and isinstance(e.func, ast.Name) and e.func.id == "super" and not e.args:
+            ps = fn.params()
+            if fn.cls is None or not ps:
+                raise Unsupported("super() outside a method")
+            return ("super", env.get(ps[0].arg), fn.cls)
+        if isinstance(e, ast.Call) and isinstance(e.func, ast.Name) and e.func.id == "type" and len(e.args) == 1:
+            v_ = self.expr(e.args[0], env, fn, depth)
+            if isinstance(v_, Obj):
+                return v_.__dict__.get("__cls__")
+            return type(v_)
         if isinstance(e, ast.Call):
             f = self.expr(e.func, env, fn, depth)
             args = []
@@ -926,6 +996,11 @@ class Interp:
                     if not isinstance(extra, dict):
                         raise Unsupported("** of a non-dict")
                     kwargs.update(extra)
+            if isinstance(e.func, ast.Name) and e.func.id == "super" and not e.args:
+                ps = fn.params()
+                if fn.cls is None or not ps:
+                    raise Unsupported("super() outside a method")
+                return ("super", env.get(ps[0].arg), fn.cls)
             if isinstance(f, FunctionInfo):
                 return self.call(f, args, kwargs, depth + 1)
             from geolint.model import ClassInfo as _CI
